@@ -11,7 +11,9 @@
 (***************************************************************************)
 EXTENDS BigArith, TLC
 
-Small == {0, 1, 2, 3, 7, 9, 10, 99, 100, 9999, 10000, 10001, 12345, 19999, 20000, 32768, 46340}
+CONSTANT Tier
+Small == IF Tier = "quick" THEN {0, 1, 2, 9, 9999, 10000, 10001, 46340}
+         ELSE {0, 1, 2, 3, 7, 9, 10, 99, 100, 9999, 10000, 10001, 12345, 19999, 20000, 32768, 46340}
 Dens == {1, 2, 3, 7}
 Signed == Small \cup {0 - x : x \in Small}
 
@@ -21,9 +23,11 @@ P10(k) == NPow(<<10>>, k)
 P2x53 == P2(53)
 P2x60 == P2(60)
 P10x30 == P10(30)
-BigN == {P2x53, NAdd(P2x53, <<1>>), NSub(P2x53, <<1>>), NAdd(P2x60, <<2>>), NAdd(P2(59), <<1>>),
-         P10x30, P10(20), P2(64), <<2>>, <<3>>, <<9999, 9999, 9999>>, <<0, 0, 1>>, <<1>>, <<>>}
-BigC == {P2x53, <<3>>, P10x30, <<>>}
+BigN == IF Tier = "quick"
+        THEN {NAdd(P2x53, <<1>>), NAdd(P2x60, <<2>>), P10x30, P10(20), <<3>>, <<9999, 9999, 9999>>, <<0, 0, 1>>, <<>>}
+        ELSE {P2x53, NAdd(P2x53, <<1>>), NSub(P2x53, <<1>>), NAdd(P2x60, <<2>>), NAdd(P2(59), <<1>>),
+              P10x30, P10(20), P2(64), <<2>>, <<3>>, <<9999, 9999, 9999>>, <<0, 0, 1>>, <<1>>, <<>>}
+BigC == IF Tier = "quick" THEN {P2x53, <<3>>, <<>>} ELSE {P2x53, <<3>>, P10x30, <<>>}
 
 VARIABLES mode, a, b, c
 vars == <<mode, a, b, c>>
